@@ -224,6 +224,9 @@ func checkWriterTenant(c WriterCase, cv *cov) *evid.Violation {
 		for _, o := range owned {
 			prot = append(prot, rangeOfCap(o))
 		}
+		if hooks.target != nil {
+			prot = append(prot, rangeOfCap(hooks.target)) // the caller's slice given to NewBytesWriter
+		}
 		if v := tn.step(c.Tenant, step, prot); v != nil {
 			v.Msg = fmt.Sprintf("after step %d %s(%d): %s", step, op.K, op.N, v.Msg)
 			return v
@@ -397,10 +400,13 @@ func genReaderTenantCase(t *rapid.T) ReaderCase {
 	c.Total = rapid.OneOf(rapid.IntRange(0, 20000), rapid.IntRange(0, 250000)).Draw(t, "total")
 	c.Bytes = rapid.IntRange(0, 2).Draw(t, "bytesReader") == 0
 	if c.Bytes {
-		c.Total = rapid.SampledFrom([]int{0, 1, 64, 1000, 4096, 5000, 8192, 65536}).Draw(t, "btotal")
-		if rapid.Bool().Draw(t, "pow2") {
+		c.Total = rapid.SampledFrom([]int{0, 0, 1, 64, 1000, 4096, 5000, 8192, 65536}).Draw(t, "btotal")
+		switch rapid.IntRange(0, 2).Draw(t, "capKind") {
+		case 0:
 			c.Cap = nextPow2(c.Total)
-		} else {
+		case 1: // short or empty slice of a power-of-two buffer
+			c.Cap = nextPow2(c.Total + rapid.SampledFrom([]int{1, 16, 4096}).Draw(t, "extraCap"))
+		default:
 			c.Cap = c.Total + rapid.IntRange(0, 100).Draw(t, "spare")
 		}
 	} else {
